@@ -114,6 +114,15 @@ DNF_SHAPES = ["sys_platform == 'linux' or platform_system != 'linux'", "(os_name
               'extra == "bob\'s"', '"dev\'" != extra', 'os_name == \'nt\' or (extra == "it\'s" and extra == \'dotenv\')', "extra == ' dev' or os_name == 'x'"]
 
 
+def pep_norm(name):
+    """PEP 508 / 503 / 685, written down here (not asked of the crate): a name is letters, digits, - _ . , starts and ends with a letter or
+    digit; its normal form is lower case with every run of - _ . as a single - . None for an invalid name"""
+    import re
+    if re.fullmatch(r'[A-Za-z0-9]([A-Za-z0-9._-]*[A-Za-z0-9])?', name) is None:
+        return None
+    return re.sub(r'[-_.]+', '-', name).lower()
+
+
 def q(rng, s):
     if "'" in s:
         return '"' + s + '"'
